@@ -359,6 +359,60 @@ def c14_existing_output(entry: int, v: int, boost: int) -> bool:
     return ok
 
 
+SEED_TEXTS = TEXTS + [
+    "namespace gt { template<K = {int, string}, V = {double, gt::Plain}> class Pair { Pair(); void serialize() const; }; class Plain { Plain(); void serialize() const; }; "
+    "typedef gt::Pair<bool, bool> PairBB; enum E { A, B }; double f(double x); double g(gt::E e); }",
+    "namespace a { class K { K(); void serializable() const; }; } namespace b { class K { K(); void serialize() const; }; template<T = {a::K, b::K, double}> class W { W(); }; }",
+]
+_SEED_SCRIPT = """
+import sys, hashlib, json
+sys.path.insert(0, %r)
+from harness import pipe
+texts = json.loads(sys.argv[1])
+out = []
+for t in texts:
+    out.append(hashlib.sha256(pipe.pybind(t, boost=bool(int(sys.argv[2]))).encode()).hexdigest())
+    files, cpp, _w = pipe.matlab(t, boost=bool(int(sys.argv[2])))
+    out.append(hashlib.sha256(json.dumps(sorted(files.items())).encode()).hexdigest())
+    out.append(hashlib.sha256(json.dumps(list(files)).encode()).hexdigest())        # order of emission as well
+print(json.dumps(out))
+"""
+
+
+def c14_hash_seed(seed: int, boost: int) -> bool:
+    """
+    The same texts generated in FRESH interpreters under different PYTHONHASHSEED values (and a different working
+    directory) give byte-identical pybind and MATLAB output, in the same emission order: nothing iterates over a
+    hash-ordered container of strings or depends on object identity.
+    pre: 1 <= seed <= 4 and 0 <= boost <= 1
+    post: _
+    """
+    seed, boost = pick(seed, 1, 5), pick(boost, 0, 2)
+    with concrete():
+        import json
+        import subprocess
+        import sys
+        import tempfile
+        from vlib.common import ROOT
+        env = dict(os.environ)
+        outs = []
+        for sd, cwd in ((0, ROOT), (seed * 7919, tempfile.gettempdir())):
+            env["PYTHONHASHSEED"] = str(sd)
+            p = subprocess.run([sys.executable, "-c", _SEED_SCRIPT % ROOT, json.dumps(SEED_TEXTS), str(boost)], capture_output=True, text=True, env=env, cwd=cwd)
+            if p.returncode != 0:
+                outs.append("subprocess failed: " + p.stderr[-300:])
+            else:
+                outs.append(json.loads(p.stdout.strip().splitlines()[-1]))
+        ok = True
+        if any(isinstance(o, str) for o in outs):
+            ok = _fail(problem=[o for o in outs if isinstance(o, str)][0])
+        elif outs[0] != outs[1]:
+            diff = [(i // 3, ("pybind", "matlab files", "matlab emission order")[i % 3]) for i, (x, y) in enumerate(zip(outs[0], outs[1])) if x != y]
+            ok = _fail(seeds=(0, seed * 7919), differing=[(SEED_TEXTS[i][:80], what) for i, what in diff])
+    reached({"seed": seed * 7919, "boost": boost})
+    return ok
+
+
 def c14_repeat_fresh(t: int, boost: int) -> bool:
     """
     Two fresh wrappers of each kind on the same text give identical results (no module-level state).
@@ -390,5 +444,7 @@ def conds(tier):
         xh.Cond(M, "c14_previous_run", t(120, 600), kind=sb, examples=["r=0, swap=0", "r=2, swap=1"], bounds="%d revision pairs (same-length edits) x both orders, MATLAB output directory kept between the two runs" % len(REVISIONS)),
         xh.Cond(M, "c14_existing_output", t(200, 600), kind=sb, examples=["entry=0, v=2, boost=0", "entry=1, v=3, boost=1", "entry=2, v=2, boost=0", "entry=0, v=0, boost=1"],
                 bounds="3 entry points x %d previous contents of every output path x serialization (real temporary directory)" % len(VARIANTS)),
+        xh.Cond(M, "c14_hash_seed", t(200, 600), kind=sb, examples=["seed=1, boost=1", "seed=3, boost=0"],
+                bounds="%d texts x 4 further hash seeds x serialization, fresh interpreters, another working directory" % len(SEED_TEXTS)),
         xh.Cond(M, "c14_repeat_fresh", t(120, 600), kind=sb, examples=["t=2, boost=1"], bounds="%d texts x serialization" % NT),
     ]
